@@ -67,6 +67,9 @@ else:
             "demo_with_patch_exit": c["demo_with_patch"]["rc"],
             "existing_tests_cmd": src.get("existing_tests_cmd", ""),
             "existing_tests_with_patch_exit": c["existing_tests_with_patch"]["rc"],
+            "existing_tests_only_load_sensitive_failures": c["existing_tests_with_patch"].get("only_load_sensitive_failures", False),
+            "existing_tests_failed_names": sorted({t for a in c["existing_tests_with_patch"].get("attempts", []) for t in a.get("failed_tests", [])}),
+            "repo_head": c.get("repo_head", "commit the seeding agent started from (hooks only)"),
             "note": "run by the lead in a scratch worktree with a private target dir (tools/confirm_seed.py)",
         },
         "check_results": old.get("check_results", []),
